@@ -532,8 +532,20 @@ impl CsvCase {
 
 pub fn determinism_jobs(rng: &mut Rng, dir: &Path) -> Option<(Vec<Job>, String)> {
     let mut case = CsvCase::generate(rng, BENIGN_PAYEES, &["note a", "note b"]);
-    // a rule with both payee and category matchers, payee capturing
-    case.config_yaml.push_str("rewrite:\n  - matcher:\n      payee: \"(?P<payee>[A-Za-z]+) .*\"\n      category: \"(?P<code>[A-Z])[a-z]+\"\n    account: Expenses:Matched\n  - matcher:\n      - payee: \"SBB\"\n        category: \"Travel\"\n      - category: \"Income\"\n    account: Income:Salary\n    pending: true\n");
+    for _ in 0..20 {
+        if case.layout.category_col && !case.layout.payee_template {
+            break;
+        }
+        case = CsvCase::generate(rng, BENIGN_PAYEES, &["note a", "note b"]);
+    }
+    if !case.layout.category_col {
+        return None;
+    }
+    // rules whose AND-maps have several matchers, each with named groups: the outcome must not
+    // depend on the order in which the matchers of one map are evaluated
+    case.config_yaml.push_str(
+        "rewrite:\n  - matcher:\n      payee: \"(?P<payee>[A-Za-z]+) .*\"\n      category: \"(?P<payee>[A-Z][a-z]+)\"\n    account: Expenses:Matched\n  - matcher:\n      - payee: \"(?P<code>SBB)\"\n        category: \"(?P<code>Tr)avel\"\n      - category: \"Income\"\n    account: Income:Salary\n    pending: true\n",
+    );
     let (cfg, src) = case.write(dir).ok()?;
     let jobs = vec![Job { family: "import-csv-multi-matcher-rules", argv: vec!["import".into(), "--config".into(), cfg.to_string_lossy().into_owned(), src.to_string_lossy().into_owned()] }];
     Some((jobs, format!("=== config\n{}=== csv\n{}", case.config_yaml, case.csv_text)))
